@@ -28,10 +28,6 @@ Theorem C20_doc_text_is_text_iff : forall b, doc_text_is_text b <-> b = true.
 Proof. exact doc_text_is_text_iff. Qed.
 Print Assumptions C20_doc_text_is_text_iff.
 
-
-
-
-
 (* (3'') positions that pass through an explicit escape filter: ids of nested elements come out of make_unique
    (translated) free of <, >, quotes for EVERY input and EVERY generator state *)
 Theorem C20_make_unique_no_markup : forall st s, quote_free (snd (filter_make_unique st s)) = true.
@@ -100,9 +96,6 @@ Theorem C20_listed_ids_on_page :
 Proof. exact listed_ids_on_page. Qed.
 Print Assumptions C20_listed_ids_on_page.
 
-
-
-
 (* links_resolve, UNIVERSAL: for every set of generated root namespaces, every page of the site (the index page of ANY
    namespace, at any depth), every hyperlink the page carries -- sidebar links to namespaces and types, and the type link of
    every nested composite incl. array elements and the request/response halves of services -- resolves: relative links,
@@ -114,13 +107,13 @@ Theorem C20_links_resolve_universal :
   forall cf roots self,
     ae_ti cf = false -> ae_ni cf = false -> ae_sb cf = false -> lk_up cf = true ->
     In self (site_pages roots) ->
-    (forall c, In c (refs_ns self) -> ref_resolves roots c) ->
+    (forall c, In c (refs_ns (lk_us cf) self) -> ref_resolves roots c) ->
     page_links_ok cf roots self = true.
 Proof. exact links_resolve_universal. Qed.
 Print Assumptions C20_links_resolve_universal.
 
 Theorem C20_links_resolve_now :
-  forall roots self, In self (site_pages roots) -> (forall c, In c (refs_ns self) -> ref_resolves roots c) ->
+  forall roots self, In self (site_pages roots) -> (forall c, In c (refs_ns (lk_us faithful_cfg) self) -> ref_resolves roots c) ->
     page_links_ok faithful_cfg roots self = true.
 Proof.
   intros roots self. destruct faithful_cfg_links as (A & B & C & D). exact (links_resolve_universal faithful_cfg roots self A B C D).
@@ -138,16 +131,6 @@ Theorem C20_url_shape : forall t, filter_url_from_type t = s_up ++ ti_root_ns t 
 Proof. exact url_shape. Qed.
 Print Assumptions C20_url_shape.
 
-(* links and RUNS.  One nnvg run generates ONE root namespace into the output directory; root namespaces it reaches only through
-   --lookup-dir are read, not written.  `roots` in the two theorems above is therefore the UNION of the roots generated by all
-   the runs that share one output directory, and `ref_resolves` demands that every root a link points into is among them.
-   A run whose cross-root references are lookup-only leaves those links dangling until the other root is generated too: *)
-Theorem C20_links_resolve_union_of_runs :
-  forall runs self, In self (site_pages runs) -> (forall c, In c (refs_ns self) -> ref_resolves runs c) ->
-    page_links_ok faithful_cfg runs self = true.
-Proof. exact C20_links_resolve_now. Qed.
-Print Assumptions C20_links_resolve_union_of_runs.
-
 Theorem C20_links_lookup_only_refuted :
   match w_site_ok with
   | r :: _ => page_links_ok faithful_cfg [r] r = false /\ forallb (page_links_ok faithful_cfg w_site_ok) (site_pages w_site_ok) = true
@@ -156,45 +139,94 @@ Theorem C20_links_lookup_only_refuted :
 Proof. exact links_lookup_only_refuted. Qed.
 Print Assumptions C20_links_lookup_only_refuted.
 
-(* anchors identify types.  With the '-' id scheme (tag_id_dashed, nested separator "-n": design_notes/C20_tag_id_fix.patch) ...
-   (a) filter_tag_id is injective on (full name, major, minor): *)
+(* FIX-STATE FACTS, as obligations: the regenerated configuration of the working tree is the fixed one for every landed fix
+   (fe8e693 doc sinks escaped, 5301250 depth prefix + service halves, 7e67599 '-' ids + '-n' before the nesting counter,
+   c1311cb no link to `_` types, 5a15038 '-'-joined namespace ids + '--ns').
+   Reverting any of them makes this Example (or the translator, which accepts only the fixed shapes) fail. *)
+Example C20_fix_state_now :
+  cfg_docs_escaped faithful_cfg = true /\ lk_up faithful_cfg = true /\ url_links_service = true
+  /\ tag_id_dashed = true /\ nested_id_sep = s_dash_n /\ lk_us faithful_cfg = true /\ ns_ids_dashed = true.
+Proof. vm_compute. repeat split. Qed.
+
+(* anchors identify types ('-' id scheme, landed).  (a) filter_tag_id is injective on (full name, major, minor): *)
 Theorem C20_tag_id_injective :
-  tag_id_dashed = true ->
   forall t1 t2, ti_is_array t1 = false -> ti_is_array t2 = false ->
     no_dash (ti_full_name t1) = true -> no_dash (ti_full_name t2) = true -> version_ok t1 = true -> version_ok t2 = true ->
     filter_tag_id t1 = filter_tag_id t2 ->
     ti_full_name t1 = ti_full_name t2 /\ ti_major t1 = ti_major t2 /\ ti_minor t1 = ti_minor t2.
-Proof. exact tag_id_injective. Qed.
+Proof. exact (tag_id_injective (proj1 id_scheme_now)). Qed.
 Print Assumptions C20_tag_id_injective.
 
-(* (b) every id on a namespace page is the tag id of a listed type, or has no '-' (namespaces, static ids), or ends in _sidebar,
-   or is a nesting occurrence X-n<k>; *)
+(* (b) every id on a namespace page is the tag id of a listed type, the id of a namespace at or below the page's namespace, a
+   static id of the modelled regions, an X_sidebar id, or a nesting occurrence X-n<k>; *)
 Theorem C20_page_ids_classified :
-  forall cf n, ae_ti cf = false -> ae_ni cf = false -> ae_sb cf = false -> nested_id_sep = s_dash_n -> tops_ok n = true ->
-    forallb (id_class (map (fun c => filter_tag_id (ci_t c)) (all_listed n))) (page_ids cf n) = true.
-Proof. exact page_ids_classified. Qed.
+  forall cf n, ae_ti cf = false -> ae_ni cf = false -> ae_sb cf = false -> tops_ok n = true ->
+    forallb (id_class (page_L n) (page_LN n) page_ST) (page_ids cf n) = true.
+Proof. intros cf n A B C D. exact (page_ids_classified cf n A B C (proj2 id_scheme_now) D). Qed.
 Print Assumptions C20_page_ids_classified.
 
-(* (c) hence the anchor of a type is carried ONLY by main elements of listed types with that tag id -- by (a): of that very
-   (name, version).  A link therefore lands on the referenced type, never on a nesting occurrence, a namespace or a sidebar entry. *)
+(* (c) the anchor of a type is carried ONLY by main elements of listed types with that tag id -- by (a): of that very
+   (name, version): a link lands on the referenced type, never on a nesting occurrence, a namespace, a sidebar entry or a static id *)
 Theorem C20_type_anchor_exclusive :
-  forall cf n t, tag_id_dashed = true ->
-    ae_ti cf = false -> ae_ni cf = false -> ae_sb cf = false -> nested_id_sep = s_dash_n -> tops_ok n = true ->
+  forall cf n t,
+    ae_ti cf = false -> ae_ni cf = false -> ae_sb cf = false -> tops_ok n = true ->
+    (forall n', In n' (all_ns n) -> no_dash (ns_name n') = true) ->
     ti_is_array t = false -> version_ok t = true ->
     In (filter_tag_id t) (page_ids cf n) ->
     exists c, In c (all_listed n) /\ filter_tag_id (ci_t c) = filter_tag_id t.
-Proof. exact type_anchor_exclusive. Qed.
+Proof. intros cf n t A B C D. exact (type_anchor_exclusive cf n t (proj1 id_scheme_now) A B C (proj2 id_scheme_now) D). Qed.
 Print Assumptions C20_type_anchor_exclusive.
 
-(* the '_' scheme is refuted (finding F-HTML-ID-COLLISION): T v1.1 nested once gets the id of T v1.10; with the '-' scheme the
-   same page has pairwise distinct ids.  Which scheme the working tree has is `tag_id_dashed` / `nested_id_sep` (regenerated). *)
-Theorem C20_ids_collide_without_dashes : tag_id_dashed = false -> nodup_str (page_ids faithful_cfg w_site_collision) = false.
-Proof. exact ids_collide_without_dashes. Qed.
-Print Assumptions C20_ids_collide_without_dashes.
-Theorem C20_ids_unique_with_dashes :
-  tag_id_dashed = true -> nested_id_sep = s_dash_n -> nodup_str (page_ids faithful_cfg w_site_collision) = true.
-Proof. exact ids_unique_on_witness_with_dashes. Qed.
-Print Assumptions C20_ids_unique_with_dashes.
+(* (d) the kind of an id is a function of the string (read off its end): type ids, _sidebar ids, nesting occurrences and the
+   regenerated static ids of the templates are pairwise disjoint classes; the static ids are pairwise distinct *)
+Theorem C20_id_kinds :
+  (forall t, ti_is_array t = false -> version_ok t = true -> id_kind (filter_tag_id t) = 1)
+  /\ (forall x, id_kind (x ++ s_sidebar_sfx) = 3)
+  /\ (forall st s, nested_shape (snd (filter_make_unique st (s ++ nested_id_sep))) = true)
+  /\ forallb (fun e => id_kind (snd e) =? 0) html_static_ids = true
+  /\ nodup_str (map snd html_static_ids) = true.
+Proof.
+  split; [intros t; exact (kind_type t (proj1 id_scheme_now))|]. split; [exact kind_sidebar|]. split.
+  - intros st s. rewrite (proj2 id_scheme_now). apply make_unique_shape.
+  - split; [exact (proj1 static_ids_ok)|exact (proj1 (proj2 static_ids_ok))].
+Qed.
+Print Assumptions C20_id_kinds.
+
+(* NAMESPACE ids ('-'-joined components followed by --ns, landed 5a15038; was finding F-HTML-NS-ID-COLLISION): injective on dash-free
+   names and a class of their own *)
+Theorem C20_ns_id_injective :
+  (forall a b, no_dash a = true -> no_dash b = true -> ns_id a = ns_id b -> a = b) /\ (forall name, id_kind (ns_id name) = 2).
+Proof. split; [exact (ns_id_injective ns_scheme_now)|intros name; exact (kind_ns name ns_scheme_now)]. Qed.
+Print Assumptions C20_ns_id_injective.
+
+(* LINKS TO TYPES THAT ARE NOT LISTED (was finding F-HTML-LINK-US, fixed by c1311cb).  The hypothesis of the link theorem, split:
+   `type_defined` is what the FRONT END guarantees (the referenced type -- for a service half: the service -- is defined, under
+   its own short name, in the tree of a generated root namespace); that a defined type gets an element is the GENERATOR's part:
+   true of every type whose short name is not `_` (all_defined_listed), false of the `_` pseudo types, which namespace_info.j2 and
+   sidebar.j2 skip.  type_info.j2 writes no link to a name ending in `_` (lk_us, pinned by C20_fix_state_now), and then: *)
+Theorem C20_links_resolve_defined :
+  forall cf roots self,
+    ae_ti cf = false -> ae_ni cf = false -> ae_sb cf = false -> lk_up cf = true -> lk_us cf = true ->
+    In self (site_pages roots) ->
+    (forall c, In c (refs_ns true self) -> type_defined roots c) ->
+    page_links_ok cf roots self = true.
+Proof. exact links_resolve_defined. Qed.
+Print Assumptions C20_links_resolve_defined.
+
+(* for the configuration regenerated from the working tree: every hyperlink of every namespace page resolves, assuming only
+   what the front end guarantees about the referenced types *)
+Theorem C20_links_resolve_defined_now :
+  forall roots self, In self (site_pages roots) -> (forall c, In c (refs_ns true self) -> type_defined roots c) ->
+    page_links_ok faithful_cfg roots self = true.
+Proof.
+  intros roots self. destruct faithful_cfg_links as (A & B & C & D).
+  exact (links_resolve_defined faithful_cfg roots self A B C D us_scheme_now).
+Qed.
+Print Assumptions C20_links_resolve_defined_now.
+
+Theorem C20_defined_resolves : forall roots c, linked true c = true -> type_defined roots c -> ref_resolves roots c.
+Proof. exact defined_resolves. Qed.
+Print Assumptions C20_defined_resolves.
 
 (* type pages (type_base.j2): within the hypotheses of scan_render without a per-page check, like namespace pages *)
 Theorem C20_type_page_wf_unconditional :
@@ -230,7 +262,6 @@ Theorem C20_html_page_wf :
 Proof. exact html_page_wf. Qed.
 Print Assumptions C20_html_page_wf.
 
-
 (* output sites, classified IN COQ: the translator emits for every `{{ }}` site the expression AST, for every template
    variable all its bindings ({% set %}, parameter defaults, arguments at every call site) and a class certificate; Coq
    recomputes every class from the whitelists in Gen/HtmlSkel.v, checks the certificate as an inductive invariant, and ... *)
@@ -263,7 +294,7 @@ Proof. exact html_inlining_structure. Qed.
 Print Assumptions C20_html_inlining_structure.
 
 (* non-vacuity: a two-root site with a cross-root reference in which every page's links resolve; the hypotheses of
-   C20_links_resolve_partial hold for it; a page within the hypotheses of C20_emit_tree_wf *)
+   C20_links_resolve_universal hold for it; a page within the hypotheses of C20_emit_tree_wf *)
 Example C20_links_ok_witness : forallb (page_links_ok faithful_cfg w_site_ok) (site_pages w_site_ok) = true.
 Proof. exact links_ok_witness. Qed.
 Example C20_pieces_ok_witness : forallb (fun n => pieces_ok (ns_page faithful_cfg n)) (site_pages w_site_ok) = true.
@@ -278,7 +309,7 @@ Proof. vm_compute. repeat split. Qed.
 (* the closure hypothesis of C20_links_resolve_universal holds of a site with a nested namespace whose page references a
    type of the root namespace, and the theorem's conclusion is what the model computes for it *)
 Example C20_closure_satisfiable :
-  (forall self, In self (site_pages [w_site_subns]) -> forall c, In c (refs_ns self) -> ref_resolves [w_site_subns] c)
+  (forall self, In self (site_pages [w_site_subns]) -> forall c, In c (refs_ns true self) -> ref_resolves [w_site_subns] c)
   /\ forallb (page_links_ok faithful_cfg [w_site_subns]) (site_pages [w_site_subns]) = true.
 Proof.
   split; [|vm_compute; reflexivity].
